@@ -258,6 +258,8 @@ def run_stream(ctx, ids, cases, tag):
     res = {b: [r for part in both[b] for r in part["results"]] for b in both}
     oracle_fail, build_diff = [], []
     for i, c in enumerate(cases):
+        if rs.has_error(res, i):
+            continue          # reported by the caller through rs.case_errors(res)
         for b in ("compiled", "pure"):
             if res[b][i].get("oracle"):
                 oracle_fail.append((i, b))
@@ -273,7 +275,7 @@ def run_stream(ctx, ids, cases, tag):
     eval_items = []
     for i, c in enumerate(cases):
         r = res["compiled"][i]
-        if "setup_error" in r:
+        if "setup_error" in r or rs.has_error(res, i):
             continue
         e = emit(c, r)
         if e is not None:
